@@ -11,6 +11,7 @@ CONSTANTS
   HazClose2 = FALSE
   HazFMMem = FALSE
 SYMMETRY Symm
-INVARIANTS TypeOK RWExclusion LockBalanced NoPanic ContractHolds AfterCloseErrClosed
+VIEW View
+INVARIANTS TypeOK RWExclusion LockBalanced NoPanic ContractHolds
   CloseReturnMeansStopped WriterMeansQuiescent BatchNeverSeesClose NoOrphanAck ForceMergeSingle
 CHECK_DEADLOCK TRUE
